@@ -36,10 +36,20 @@ def budget(tier):
 
 
 class _F:
-    def __init__(self, f):
+    def __init__(self, f, path=None):
         self._f = f
+        self._path = path
 
     def read(self, n=-1):
+        if _obs.get("touch") and self._path is not None:
+            # another process touches the file while it is read (backup tool, indexer): same bytes, new time stamp
+            try:
+                t = _obs["touch"].randint(1, 2_000_000_000)
+                os.utime(self._path, (t, t))
+                _obs["touched"] = _obs.get("touched", 0) + 1
+            except OSError:
+                pass
+            self._path = None
         sr = _obs.get("short")
         if sr is not None and isinstance(n, int) and n > 1:
             # a short read: fewer bytes than asked for although more follow (pipes, network file systems, signals)
@@ -62,7 +72,7 @@ class _F:
 def _open(path, mode="r", *a, **kw):
     f = open(path, mode, *a, **kw)
     if "b" in mode and "r" in mode and "+" not in mode:
-        return _F(f)
+        return _F(f, path)
     return f
 
 
@@ -145,6 +155,7 @@ def run_case(cs):
 
     rng = cs.rng
     _obs["short"] = None
+    _obs["touch"] = None
     mode = rng.random()
     force_large = cs.seed_str.endswith((":0", ":1", ":2"))
     if force_large:
@@ -168,6 +179,9 @@ def run_case(cs):
     _obs["short"] = env.rng_for(cs.seed_str, "short-reads") if rng.random() < 0.3 else None
     if _obs["short"] is not None:
         cs.count("cases_with_injected_short_reads")
+    _obs["touch"] = env.rng_for(cs.seed_str, "touch") if rng.random() < 0.15 else None
+    if _obs["touch"] is not None:
+        cs.count("cases_with_time_stamp_touched_during_read")
     k = rng.choice([1, 1, 2, 3, 6, 7])
     subset = rng.sample(ALL_FMT, k)
     coreutils = rng.random() < 0.15
@@ -283,6 +297,7 @@ def run_case(cs):
                     {"size": n, "offset": i, **r.brief()},
                 )
     _obs["short"] = None
+    _obs["touch"] = None
     cs.sample({"size": n, "formats": subset, "name": fname, "want": {f: want[f] for f in subset[:2]}})
 
 
